@@ -591,16 +591,18 @@ impl LocalPeerService {
             .send(PeerConnectionMessage::NewPeer(peer_nodes))
             .await;
 
-        if Self::synchronise_room_data(
+        let synchronised = Self::synchronise_room_data(
             &remote_room,
             &local_room_def,
             query_service,
             discret_services,
         )
-        .await?
-        {
+        .await;
+        //a failed synchronisation may have committed some batches: they must be announced too
+        if !matches!(synchronised, Ok(false)) {
             discret_services.database.compute_daily_log().await;
         }
+        synchronised?;
         Ok(())
     }
 
